@@ -164,6 +164,45 @@ def text_variants(rng):
     return out
 
 
+def fresh_interpreter_check(oc, sample):
+    import json, shutil, subprocess, sys
+    from . import impl
+    from .lean import VERIF
+    tmp = tempfile.mkdtemp(prefix='mrm-c08-')
+    try:
+        inp = os.path.join(tmp, 'in.json')
+        with open(inp, 'w') as f:
+            json.dump(sample, f)
+        code = ("import json,sys; sys.path.insert(0, %r); from mosromgr.mostypes import MosFile; from mosromgr import exc\n"
+                "out=[]\n"
+                "for t in json.load(open(%r)):\n"
+                "    try: out.append({'kind': type(MosFile.from_string(t)).__name__})\n"
+                "    except exc.UnknownMosFileType: out.append({'err': 'UnknownMosFileType'})\n"
+                "    except exc.MosInvalidXML: out.append({'err': 'MosInvalidXML'})\n"
+                "    except Exception as e: out.append({'err': 'crash:' + type(e).__name__})\n"
+                "print(json.dumps(out))" % (impl.REPO, inp))
+        env = dict(os.environ, PYTHONDONTWRITEBYTECODE='1')
+        env.pop('PYTHONPATH', None)
+        p = subprocess.run([sys.executable, '-W', 'error', '-X', 'pycache_prefix=' + os.path.join(tmp, 'pyc'), '-c', code], cwd=tmp, env=env,
+                           stdout=subprocess.PIPE, stderr=subprocess.PIPE, text=True, timeout=600)
+        oc.evaluations += 1
+        oc.in_domain += 1
+        oc.count('fresh-interpreter -W error')
+        here = [classify_impl(t, 'string', 'error') for t in sample]
+        try:
+            there = json.loads(p.stdout.strip().split('\n')[-1]) if p.returncode == 0 else None
+        except Exception:  # noqa: BLE001
+            there = None
+        if there != here:
+            first = next((i for i, (a, b) in enumerate(zip(there or [], here)) if a != b), 0)
+            oc.failing.append({'kind': 'classify', 'text': sample[first], 'label': 'fresh interpreter with -W error and no byte-code cache', 'fresh_w_error': True,
+                               'spec': 'the outcome does not depend on the interpreter\'s warning configuration: in a fresh `python -W error` process '
+                                       'the library must import and classify as it does here',
+                               'expected': here[first], 'impl': (there[first] if there else {'exit': p.returncode, 'stderr': p.stderr[-600:]})})
+    finally:
+        shutil.rmtree(tmp, ignore_errors=True)
+
+
 def big_documents():
     """(label, big document text, small twin text)"""
     out = []
@@ -258,6 +297,9 @@ def run_c08(tier, seed):
                                    'spec': 'the class depends on the document alone, not on what was classified before', 'expected': spec, 'impl': got,
                                    'preceding': order[max(0, order.index(text) - 3):order.index(text)]})
     oc.count('reclassified-shuffled', 2 * len(order))
+    # a fresh interpreter started with -W error and no byte-code cache: compiling and importing the library must not
+    # warn (a SyntaxWarning / DeprecationWarning at import would make every classification fail there)
+    fresh_interpreter_check(oc, [t for t in texts[::max(1, len(texts) // 40)]])
     # size and depth are "other content": a very deep or very wide document is classified like its small twin
     # (the documents are built as text - nothing here walks them recursively)
     for lbl, big, twin in big_documents():
@@ -334,6 +376,14 @@ def replay(pid, fl):
         print(json.dumps({'impl': got, 'expected': fl['expected']}))
         bad = any(v != fl['expected'] for v in got.values())
     else:
+        if fl.get('fresh_w_error'):
+            oc2 = Outcome(pid)
+            fresh_interpreter_check(oc2, [fl['text']])
+            if oc2.failing:
+                print(f'VIOLATION property={pid} replay=(this file): still fails on the current tree')
+                return 1
+            print(f'{pid}: the recorded input no longer fails on the current tree')
+            return 0
         if fl.get('big'):
             bad = False
             for lbl, big, twin in big_documents():
